@@ -520,6 +520,7 @@ def run(ctx):
                   'existing tasks the target depends on', 'GD')
     reverse_rules(ctx, r6)
     reverse_graph(ctx, r6)
+    shared.requires_read_with_defaults(ctx, r6)
 
     # ---- R8 the execution cache covers what is looked up -----------------------
     r8 = ctx.rule('R8', 'the task-execution cache is loaded for the spec '
